@@ -63,9 +63,11 @@ fi
 if [ -n "$REPLAY" ]; then exec ./target/release/sim18 replay "$REPLAY"; fi
 ./target/release/sim18 check C18 "$TIER"; RC=$?
 [ $RC -eq 2 ] && exit 2
-MIRI_NOTE="not run in the quick tier"; MIRI_SEEDS=0; MIRI_RC=0
-if [ "$TIER" = "thorough" ]; then
-  NSEEDS="${VERIF_MIRI_SEEDS:-64}"
+MIRI_NOTE=""; MIRI_SEEDS=0; MIRI_RC=0
+# Miri's seeded scheduler + race detector on a small multi-threaded evaluation: 16 seeds on every run,
+# 64 in the thorough tier (real overlap of two polls is the one thing the lock-step pool cannot produce)
+if [ "${VERIF_MIRI:-1}" != "0" ]; then
+  if [ "$TIER" = "thorough" ]; then NSEEDS="${VERIF_MIRI_SEEDS:-64}"; else NSEEDS="${VERIF_MIRI_SEEDS:-16}"; fi
   ( cd sim/c18_miri && MIRIFLAGS="-Zmiri-many-seeds=0..$NSEEDS -Zmiri-preemption-rate=0.1" cargo +nightly miri run --offline "${CARGO_CFG[@]}" ) > target/c18_miri.log 2>&1
   MIRI_RC=$?
   MIRI_SEEDS=$NSEEDS
@@ -77,11 +79,16 @@ if [ "$TIER" = "thorough" ]; then
       echo "VIOLATION property=C18 replay=$VERIF_DIR/$R"
       MIRI_NOTE="FAILED: see $R"; RC=1
     else
-      echo "HARNESS-ERROR: miri run failed for another reason" >&2; tail -20 target/c18_miri.log >&2; exit 2
+      # Miri itself could not run here (toolchain, sysroot): not a verdict about reval; the other two
+      # parts of the check stand, and the evidence says that this part did not run
+      echo "warning: the Miri part of C18 could not run in this environment (see target/c18_miri.log); skipped" >&2
+      MIRI_NOTE="could not run in this environment: $(tail -1 target/c18_miri.log | cut -c1-160)"; MIRI_SEEDS=0
     fi
   else
-    MIRI_NOTE="$NSEEDS seeds of Miri's scheduler (preemption rate 0.1), race detector on: 3 threads x one shared Arc<RuleSet> + 3 threads x one shared Arc<Expr>; no data race, outcomes equal the sequential ones"
+    MIRI_NOTE="$NSEEDS seeds of Miri's scheduler (preemption rate 0.1), race detector on: 3 threads x one shared Arc<RuleSet> (concurrent evaluation, abandonment, completion on another thread, first concurrent use of a fresh ruleset) + 3 threads x one shared Arc<Expr>; no data race, outcomes equal the sequential ones"
   fi
+else
+  MIRI_NOTE="switched off by VERIF_MIRI=0"
 fi
 python3 - "$TIER" "$MIRI_NOTE" "$MIRI_SEEDS" "$T0" "$RC" <<'PY'
 import json,sys,time
